@@ -15,7 +15,7 @@
     * a non-fitting assignment is rejected with ValueError and leaves the table rectangular
                                                                       `setitem_reject`, `setitem_reject_step`, `err_unchanged`
 -/
-import PygProofs.Lemmas.TableCons
+import PygProofs.Lemmas.TableNodup
 
 namespace Pyg.Props.C01
 open Pyg Table
@@ -176,6 +176,119 @@ theorem rect_run (ops : List Op) (s : Heap) (hs : HeapRect s) : HeapRect (run s 
 
 theorem rect_run_empty (ops : List Op) : ∀ t ∈ run [] ops, ∃ n, t.Rect n :=
   rect_run ops [] HeapRect.nil
+
+/-- one operation keeps the column names of every live table distinct (a dictable is a dict) -/
+theorem nodup_step (s : Heap) (op : Op) (hs : HeapNodup s) : HeapNodup (step s op).1 := by
+  cases op with
+  | new dst data columns kwargs =>
+    simp only [step]
+    split
+    · rename_i r hr
+      exact hs.bind dst fun t ht => by subst ht; exact construct_nodup hr
+    · exact hs
+  | setitem h k v =>
+    simp only [step]
+    split
+    · rename_i t ht
+      split
+      · rename_i t' hs'
+        exact hs.set h (setitem_nodup (hs.get ht) hs')
+      · exact hs
+    · exact hs
+  | delitem h k =>
+    simp only [step]
+    split
+    · rename_i t ht
+      split
+      · rename_i t' hs'
+        unfold delitem at hs'
+        split at hs'
+        · cases hs'; exact hs.set h (erase_nodup k (hs.get ht))
+        · cases hs'
+      · exact hs
+    · exact hs
+  | update h kvs =>
+    simp only [step]
+    split
+    · rename_i t ht
+      have hu := update_nodup kvs (hs.get ht)
+      split <;> (rename_i heq; rw [heq] at hu; exact hs.set h hu)
+    · exact hs
+  | len h => simp only [step]; split <;> simp [Heap.query_fst, hs]
+  | shape h => simp only [step]; split <;> simp [Heap.query_fst, hs]
+  | row h i => simp only [step]; split <;> simp [Heap.query_fst, hs]
+  | col h k => simp only [step]; split <;> simp [Heap.query_fst, hs]
+  | iter h => simp only [step]; split <;> simp [Heap.query_fst, hs]
+  | tup h ks => simp only [step]; split <;> simp [Heap.query_fst, hs]
+  | slice dst h a b st =>
+    simp only [step]
+    split
+    · rename_i t ht
+      exact hs.bind dst fun t' ht' => by rw [getSlice_cols ht']; exact hs.get ht
+    · exact hs
+  | mask dst h m =>
+    simp only [step]
+    split
+    · rename_i t ht
+      exact hs.bind dst fun t' ht' => by rw [getMask_cols ht']; exact hs.get ht
+    · exact hs
+  | take dst h is =>
+    simp only [step]
+    split
+    · rename_i t ht
+      exact hs.bind dst fun t' ht' => by rw [getTake_cols ht']; exact hs.get ht
+    · exact hs
+  | proj dst h ks =>
+    simp only [step]
+    split
+    · rename_i t ht
+      exact hs.bind dst fun t' ht' => getProj_nodup (hs.get ht) ht'
+    · exact hs
+  | call dst h consts fns =>
+    simp only [step]
+    split
+    · rename_i t ht
+      exact hs.bind dst fun t' ht' => call_nodup (hs.get ht) ht'
+    · exact hs
+  | relabel dst h r =>
+    simp only [step]
+    split
+    · exact hs.bind dst fun t' ht' => by cases ht'; exact ofPairs_nodup _
+    · exact hs
+  | doo dst h f keys =>
+    simp only [step]
+    split
+    · rename_i t ht
+      exact hs.bind dst fun t' ht' => doKeys_nodup _ (hs.get ht) ht'
+    · exact hs
+  | concat dst hs' =>
+    simp only [step]
+    split
+    · exact hs
+    · exact hs.bind dst fun t' ht' => by cases ht'; simp [cols]
+    · exact hs
+    · exact hs.bind dst fun t' ht' => by cases ht'; exact concat_nodup _
+  | addrec dst h r =>
+    simp only [step]
+    split
+    · split
+      · exact hs.bind dst fun t' ht' => by cases ht'; exact concat_nodup _
+      · exact hs
+      · exact hs
+    · exact hs
+  | addnone h => simp only [step]; split <;> exact hs
+  | copy dst h =>
+    simp only [step]
+    split
+    · rename_i t ht
+      exact hs.bind dst fun t' ht' => by cases ht'; exact hs.get ht
+    · exact hs
+
+/-- after any history every live table has distinct column names -/
+theorem nodup_run (ops : List Op) (s : Heap) (hs : HeapNodup s) : HeapNodup (run s ops) := by
+  induction ops generalizing s with
+  | nil => exact hs
+  | cons op ops ih => exact ih _ (nodup_step s op hs)
 
 /-! ### frame: operations that return a new table never alter their operands -/
 
